@@ -270,8 +270,17 @@ def r3(rep, prog):
         rep.check(bool(ins), R, "a failed file is inserted into the damaged set", "%d insert site(s)" % len(ins), "no insert into the damaged set", site=body.span)
         rule_precede(rep, prog, R, fid, VC, INS, "ManagedDirectory::validate_checksum", "damaged_files.insert", a_ok=True)
     else:
+        from ..model import try_continuations
         for cb, b in in_closure:
             rule_result_checked(rep, prog, R, cb.id, VC, "ManagedDirectory::validate_checksum")
+            # ... and an unreadable file is an error of the whole validation, not "undamaged": the Err arm of the check
+            # only leads to error returns of the closure (`Some(Err(..))`, `Err(..)`, `?`)
+            cont, brk, brs = try_continuations(cb, b)
+            eb = cb.error_blocks()
+            starts = tuple(x for x in brk if x not in eb)
+            leak = must_pass(cb, [Ev(x, "enter") for x in eb], exits="all", starts=starts) if starts else []
+            rep.check(bool(brk) and not leak, R, "a file whose checksum cannot be computed is reported as an error", "the Err arm of validate_checksum only reaches error returns",
+                      "in %s the Err arm of ManagedDirectory::validate_checksum reaches a normal return: a file that cannot be opened or read is counted as undamaged" % short(cb.id), site=site(cb, b))
         coll = [b for b, t in body.calls() if (t.get("f") or "").endswith("Iterator::collect") and "HashSet" in body.local_ty_str(place_local(t["dest"]))]
         rep.check(bool(coll), R, "a failed file is inserted into the damaged set", "the per-file results are collected into a HashSet", "no insert into the damaged set", site=body.span)
     # ManagedDirectory::validate_checksum
